@@ -50,8 +50,6 @@ package disk
 //@   trusted
 //@ func store.deleteFromDisk
 //@   trusted
-//@ func store.tryDeleteImmovableMetadata
-//@   trusted
 
 // ---- invariants as spec functions (for functions running with the lock held) --------------------
 //@ specfunc i_ptr(s *store) bool = forall k string :: k in s.blobs ==> s.blobs[k] != nil && allocated(s.blobs[k])
@@ -170,9 +168,21 @@ package disk
 //@   ensures others: forall k string :: k != key ==> ((k in s.blobs) <==> old(k in s.blobs)) && s.blobs[k] == old(s.blobs[k])
 
 // Completing a blob makes it evictable unless banned; a failed rename changes nothing.
+// lastSwept (ghost): the key whose non-movable metadata was last swept from disk.
+//@ ghost field store.lastSwept string
+
+// The sweep removes metadata files only for metadata that is not movable.
+//@ func store.tryDeleteImmovableMetadata
+//@   requires s != nil
+//@   modifies s.lastSwept
+//@   ghost_set s.lastSwept = key
+//@   assert only_immovable: at os.Remove#0 :: !md_movable(md)
+//@   ensures swept: s.lastSwept == key
+
 //@ func store.MarkComplete
 //@   requires sshape(s)
 //@   modifies *
+//@   ensures immovable_metadata_swept: old(key in s.blobs) && !old(s.blobs[key].complete) && result == nil ==> s.lastSwept == key
 //@   ensures missing: !old(key in s.blobs) ==> result != nil
 //@   ensures completed: old(key in s.blobs) && result == nil ==> s.blobs[key].complete && s.blobs[key] == old(s.blobs[key]) && ((s.blobs[key].node != nil) <==> !s.blobs[key].evictionBanned)
 //@   ensures unchanged_on_error: old(key in s.blobs) && result != nil ==> s.blobs[key].complete == old(s.blobs[key].complete) && s.blobs[key].node == old(s.blobs[key].node)
